@@ -1034,7 +1034,8 @@ class StrategyBase(Node):
             c.flatten()
 
         if self.fixed_income:
-            if c.position != 0.0:
+            # a fixed income sub-strategy holds no capital: flattening it is enough
+            if c._issec and c.position != 0.0:
                 c.transact(-c.position, update=update)
         else:
             if c.value != 0.0 and not np.isnan(c.value):
@@ -1046,7 +1047,11 @@ class StrategyBase(Node):
         """
         # go right to base alloc
         if self.fixed_income:
-            [c.transact(-c.position, update=False) for c in self._childrenv if c.position != 0]
+            for c in self._childrenv:
+                if not c._issec:
+                    c.flatten()
+                elif c.position != 0:
+                    c.transact(-c.position, update=False)
         else:
             for c in self._childrenv:
                 # flatten sub-strategies first so that every position is closed
